@@ -7,6 +7,30 @@ V = os.path.dirname(os.path.dirname(os.path.abspath(__file__)))
 props = [json.loads(l) for l in open(os.path.join(V, 'properties.jsonl'))]
 
 CLAIMED = {
+    'C13': dict(
+        text='MC_Mem: TLC checks Mem.tla (MemA/MemU pseudocode over the hub model) against the property\'s decision table '
+             '(fault / legacy align-down / byte-wise), exact footprint, byte order by CPSR.E, store-load round trip, '
+             'byte-wise equivalence and little-endian fetch on the whole matrix size x offset x E x A x U x arch {5,6,7} x '
+             'MemA/MemU x read/write x priv (6144 scenarios). The same matrix is executed through the real mem_a_get/set, '
+             'mem_u_get/set, mem_u_unpriv_get/set with random data and base addresses (incl. the top of the address space), '
+             'and the value read, every RAM byte, DFSR/DFAR and the outcome are judged by TLC.',
+        note='BE-32 (SCTLR.B) is not modelled; instruction-level accesses are C02; data values are random samples.',
+        technique='TLC model checking of the memory-access spec + TLC trace validation of recorded API calls',
+        ref='DESIGN.md §4 C13'),
+    'C14': dict(
+        text='MC_PMSA: TLC checks the region loop and CheckPermission of PMSA.tla against the property (highest-numbered '
+             'enabled covering region with sub-region disables, AP prose table, background rule, abort bookkeeping) over two '
+             'regions in nested/overlapping placements, all AP pairs and probe addresses at every (sub-)region boundary +/- 1 '
+             '(8e5 states quick). Conformance: random MPU tables of up to 12 regions x boundary addresses through the real '
+             'translate_address(), and random load/store/dual/multiple/unprivileged instructions with pointers at region '
+             'boundaries through emulate_cycle(); grant/abort, DFSR, DFAR, LR_abt, SPSR_abt, mode, no write-back and no data '
+             'moved are judged by TLC on the full post-state.',
+        note='region tables and addresses are sampled; reserved AP encodings, misaligned region bases and unaligned '
+             'accesses to Device/Strongly-ordered regions are UNPREDICTABLE (envelope only); instruction fetch faults are '
+             'delivered by the implementation as data aborts (named deviation, not judged).',
+        technique='TLC model checking of the PMSA spec + TLC trace validation of translate_address() and aborting instructions',
+        ref='DESIGN.md §4 C14'),
+
     'C02': dict(
         text='ISA.tla!ExecLS/ExecLSD specify LDR/STR/LDRB/STRB/LDRH/STRH/LDRSB/LDRSH/LDRD/STRD (immediate, register, literal, '
              'unprivileged T forms) for ARM, 16-bit and 32-bit Thumb on top of Mem.tla (MemU/MemA, endianness, alignment '
